@@ -14,6 +14,7 @@ in src/bls12_381/mod.rs).
 import Mathlib.Algebra.BigOperators.Group.List.Basic
 import PP.Model.Pairing
 import PP.Proofs.Tower
+import PP.Proofs.FinalExp
 
 namespace PP
 namespace Miller
@@ -186,11 +187,11 @@ theorem millerLoopBits_cons_bit (i : Bool) (bs : List Bool) (pairs : List (Aff F
   | some x =>
     obtain ⟨f1, pairs1⟩ := x
     cases i with
-    | false => simp [Fq12.sq_eq]
+    | false => simp
     | true =>
       cases h2 : ellAll pairs1 f1 with
       | none => simp [h2]
-      | some y => simp [h2, Fq12.sq_eq]
+      | some y => simp [h2]
 
 theorem stepAll_cons (i : Bool) (p : Aff Fq) (cs : List Coeff) (rest : List (Aff Fq × List Coeff))
     (f g : Fq12) :
@@ -245,6 +246,332 @@ theorem millerLoopBits_cons (bits : List Bool) (p : Aff Fq) (cs : List Coeff)
         simp only [Option.bind_some, Option.map_none, Option.bind_none]
         cases mlb1 p bs x.2 x.1 <;> rfl
       | some y => simp only [Option.bind_some, Option.map_some]; rw [ih]
+
+theorem millerLoopBits_empty (bits : List Bool) : millerLoopBits bits [] 1 = some (1, []) := by
+  induction bits with
+  | nil => rfl
+  | cons i bs ih =>
+    rw [millerLoopBits_cons_bit]
+    cases i <;> simpa [stepAll] using ih
+
+/-- the model's loop on a one-element list is the single-pair loop -/
+theorem millerLoopBits_single (bits : List Bool) (p : Aff Fq) (cs : List Coeff) (f : Fq12) :
+    millerLoopBits bits [(p, cs)] f = (mlb1 p bits cs f).map fun x => (x.1, [(p, x.2)]) := by
+  have h := millerLoopBits_cons bits p cs [] f 1
+  rw [mul_one, millerLoopBits_empty] at h
+  rw [h]
+  cases mlb1 p bits cs f <;> simp
+
+/-! ## the whole Miller loop on filtered pairs -/
+
+/-- the Miller loop after the filtering of the identity pairs: the loop over the bits, the last `ell`,
+    the conjugation (`BLS_X_IS_NEGATIVE`) -/
+def core (pairs : List (Aff Fq × List Coeff)) : Option Fq12 :=
+  (millerLoopBits blsXBits pairs 1).bind fun x => (ellAll x.2 x.1).map fun y => y.1.conjugate
+
+/-- the same for a single pair -/
+def core1 (p : Aff Fq) (cs : List Coeff) : Option Fq12 :=
+  (mlb1 p blsXBits cs 1).bind fun x => (ell1 p x.2 x.1).map fun y => y.1.conjugate
+
+/-- the pairs that survive the filter of `miller_loop` -/
+def live (ps : List (Aff Fq × G2Prepared)) : List (Aff Fq × List Coeff) :=
+  (ps.filter fun pq => !pq.1.infinity && !pq.2.infinity).map fun pq => (pq.1, pq.2.coeffs)
+
+theorem millerLoop_eq_core (ps : List (Aff Fq × G2Prepared)) : millerLoop ps = core (live ps) := by
+  unfold millerLoop core live
+  have hneg : Gen.BLS_X_IS_NEGATIVE = true := rfl
+  simp only [hneg, if_true]
+  generalize millerLoopBits blsXBits _ 1 = o
+  cases o with
+  | none => rfl
+  | some x =>
+    show (ellAll x.2 x.1 >>= fun y => pure y.1.conjugate) =
+      Option.map (fun y => y.1.conjugate) (ellAll x.2 x.1)
+    cases ellAll x.2 x.1 <;> rfl
+
+theorem core_nil : core [] = some 1 := by
+  unfold core
+  rw [millerLoopBits_empty]
+  simp [Fq12.conjugate_one]
+
+theorem core_cons (p : Aff Fq) (cs : List Coeff) (rest : List (Aff Fq × List Coeff)) :
+    core ((p, cs) :: rest) = optMul (core1 p cs) (core rest) := by
+  have h := millerLoopBits_cons blsXBits p cs rest 1 1
+  rw [one_mul] at h
+  unfold core core1
+  rw [h]
+  cases h1 : mlb1 p blsXBits cs 1 with
+  | none => rfl
+  | some x =>
+    cases h2 : millerLoopBits blsXBits rest 1 with
+    | none => simp
+    | some y =>
+      simp only [Option.bind_some, Option.map_some]
+      rw [ellAll_cons]
+      cases h3 : ell1 p x.2 x.1 with
+      | none => rfl
+      | some x2 =>
+        cases h4 : ellAll y.2 y.1 with
+        | none => simp
+        | some y2 => simp [Fq12.conjugate_mul]
+
+theorem core_single (p : Aff Fq) (cs : List Coeff) : core [(p, cs)] = core1 p cs := by
+  rw [core_cons, core_nil, optMul_one_right]
+
+/-- the contribution of one prepared pair: `1` if a member is the identity -/
+def single (pq : Aff Fq × G2Prepared) : Option Fq12 :=
+  if pq.1.infinity || pq.2.infinity then some 1 else core1 pq.1 pq.2.coeffs
+
+theorem live_cons (pq : Aff Fq × G2Prepared) (ps : List (Aff Fq × G2Prepared)) :
+    live (pq :: ps) =
+      if pq.1.infinity || pq.2.infinity then live ps else (pq.1, pq.2.coeffs) :: live ps := by
+  unfold live
+  rw [List.filter_cons]
+  cases pq.1.infinity <;> cases pq.2.infinity <;> simp
+
+theorem millerLoop_single (pq : Aff Fq × G2Prepared) : millerLoop [pq] = single pq := by
+  rw [millerLoop_eq_core, live_cons, single]
+  split
+  · exact core_nil
+  · exact core_single _ _
+
+theorem millerLoop_nil : millerLoop [] = some 1 := by
+  rw [millerLoop_eq_core]; exact core_nil
+
+theorem millerLoop_cons (pq : Aff Fq × G2Prepared) (ps : List (Aff Fq × G2Prepared)) :
+    millerLoop (pq :: ps) = optMul (millerLoop [pq]) (millerLoop ps) := by
+  rw [millerLoop_single, millerLoop_eq_core, millerLoop_eq_core, live_cons, single]
+  split
+  · rw [optMul_one_left]
+  · rw [core_cons]
+
+/-- **the joint Miller loop is the product of the individual Miller loops**, in `Option`: it fails
+    exactly when one of them fails -/
+theorem millerLoop_eq_optProd (ps : List (Aff Fq × G2Prepared)) :
+    millerLoop ps = optProd (ps.map fun pq => millerLoop [pq]) := by
+  induction ps with
+  | nil => exact millerLoop_nil
+  | cons pq ps ih => rw [millerLoop_cons, ih]; rfl
+
+/-! ## counting coefficients -/
+
+/-- the number of coefficients consumed by the loop over `bits`: one per bit, one more per set bit -/
+def need (bits : List Bool) : Nat := bits.length + bits.count true
+
+theorem need_nil : need [] = 0 := rfl
+theorem need_cons_false (bs : List Bool) : need (false :: bs) = need bs + 1 := by
+  simp [need]; omega
+theorem need_cons_true (bs : List Bool) : need (true :: bs) = need bs + 2 := by
+  simp [need]; omega
+
+theorem blsXBits_length : blsXBits.length = 62 := by decide
+theorem blsXBits_count : blsXBits.count true = 5 := by decide
+
+/-- the number of coefficients consumed per pair by the whole Miller loop -/
+def coeffCount : Nat := need blsXBits + 1
+
+theorem coeffCount_eq : coeffCount = 68 := by
+  unfold coeffCount need; rw [blsXBits_length, blsXBits_count]
+
+theorem ell1_eq_none_iff (p : Aff Fq) (cs : List Coeff) (f : Fq12) :
+    ell1 p cs f = none ↔ cs.length < 1 := by
+  cases cs <;> simp [ell1]
+
+theorem ell1_eq_some (p : Aff Fq) (cs : List Coeff) (f : Fq12) (x : Fq12 × List Coeff)
+    (h : ell1 p cs f = some x) : x.2 = cs.drop 1 := by
+  cases cs with
+  | nil => simp [ell1] at h
+  | cons c cs => simp only [ell1, Option.some.injEq] at h; subst h; rfl
+
+theorem step1_eq_none_iff (p : Aff Fq) (i : Bool) (cs : List Coeff) (f : Fq12) :
+    step1 p i cs f = none ↔ cs.length < need [i] := by
+  cases i with
+  | false => cases cs <;> simp [step1, ell1, need]
+  | true =>
+    cases cs with
+    | nil => simp [step1, ell1, need]
+    | cons c cs => cases cs <;> simp [step1, ell1, need]
+
+theorem step1_eq_some (p : Aff Fq) (i : Bool) (cs : List Coeff) (f : Fq12) (x : Fq12 × List Coeff)
+    (h : step1 p i cs f = some x) : x.2 = cs.drop (need [i]) := by
+  cases i with
+  | false =>
+    cases cs with
+    | nil => simp [step1, ell1] at h
+    | cons c cs => simp [step1, ell1] at h; subst h; simp [need]
+  | true =>
+    cases cs with
+    | nil => simp [step1, ell1] at h
+    | cons c cs =>
+      cases cs with
+      | nil => simp [step1, ell1] at h
+      | cons c' cs => simp [step1, ell1] at h; subst h; simp [need]
+
+theorem need_cons (i : Bool) (bs : List Bool) : need (i :: bs) = need [i] + need bs := by
+  cases i <;> simp [need] <;> omega
+
+/-- the single loop fails exactly when the coefficient list is too short … -/
+theorem mlb1_eq_none_iff (p : Aff Fq) (bits : List Bool) (cs : List Coeff) (f : Fq12) :
+    mlb1 p bits cs f = none ↔ cs.length < need bits := by
+  induction bits generalizing cs f with
+  | nil => simp [mlb1, need]
+  | cons i bs ih =>
+    rw [mlb1, need_cons]
+    cases h : step1 p i cs f with
+    | none =>
+      have := (step1_eq_none_iff p i cs f).mp h
+      simp; omega
+    | some x =>
+      have h1 : ¬ cs.length < need [i] := by
+        rw [← step1_eq_none_iff p i cs f, h]; simp
+      have h2 := step1_eq_some p i cs f x h
+      rw [Option.bind_some, ih, h2, List.length_drop]
+      omega
+
+/-- … and otherwise leaves the remaining coefficients -/
+theorem mlb1_eq_some (p : Aff Fq) (bits : List Bool) (cs : List Coeff) (f : Fq12)
+    (x : Fq12 × List Coeff) (h : mlb1 p bits cs f = some x) : x.2 = cs.drop (need bits) := by
+  induction bits generalizing cs f with
+  | nil => simp only [mlb1, Option.some.injEq] at h; subst h; simp [need]
+  | cons i bs ih =>
+    rw [mlb1] at h
+    cases h1 : step1 p i cs f with
+    | none => rw [h1] at h; simp at h
+    | some y =>
+      rw [h1, Option.bind_some] at h
+      rw [ih _ _ h, step1_eq_some p i cs f y h1, List.drop_drop, need_cons i bs]
+
+/-- the Miller loop of one pair fails exactly when there are fewer than `coeffCount = 68`
+    coefficients -/
+theorem core1_eq_none_iff (p : Aff Fq) (cs : List Coeff) :
+    core1 p cs = none ↔ cs.length < coeffCount := by
+  unfold core1 coeffCount
+  cases h : mlb1 p blsXBits cs 1 with
+  | none =>
+    have := (mlb1_eq_none_iff p blsXBits cs 1).mp h
+    simp; omega
+  | some x =>
+    have h1 : ¬ cs.length < need blsXBits := by
+      rw [← mlb1_eq_none_iff p blsXBits cs 1, h]; simp
+    have h2 := mlb1_eq_some p blsXBits cs 1 x h
+    rw [Option.bind_some, Option.map_eq_none_iff, ell1_eq_none_iff, h2, List.length_drop]
+    omega
+
+theorem single_eq_none_iff (pq : Aff Fq × G2Prepared) :
+    single pq = none ↔
+      pq.1.infinity = false ∧ pq.2.infinity = false ∧ pq.2.coeffs.length < coeffCount := by
+  unfold single
+  cases pq.1.infinity <;> cases pq.2.infinity <;> simp [core1_eq_none_iff]
+
+/-- **exactly when the Miller loop panics**: some pair without an identity member has fewer than 68
+    coefficients -/
+theorem millerLoop_eq_none_iff (ps : List (Aff Fq × G2Prepared)) :
+    millerLoop ps = none ↔
+      ∃ pq ∈ ps, pq.1.infinity = false ∧ pq.2.infinity = false ∧
+        pq.2.coeffs.length < coeffCount := by
+  rw [millerLoop_eq_optProd, optProd_eq_none_iff, List.mem_map]
+  constructor
+  · rintro ⟨pq, hm, h⟩
+    rw [millerLoop_single] at h
+    exact ⟨pq, hm, (single_eq_none_iff pq).mp h⟩
+  · rintro ⟨pq, hm, h⟩
+    exact ⟨pq, hm, by rw [millerLoop_single]; exact (single_eq_none_iff pq).mpr h⟩
+
+/-! ## `G2Prepared::from_affine` produces exactly `coeffCount` coefficients -/
+
+theorem prepareLoop_length (q : Aff Fq2) (bits : List Bool) (r : Jac Fq2) (acc : List Coeff) :
+    (prepareLoop q bits r acc).2.length = acc.length + need bits := by
+  induction bits generalizing r acc with
+  | nil => simp [prepareLoop, need]
+  | cons i bs ih =>
+    cases i with
+    | false =>
+      simp only [prepareLoop, Bool.false_eq_true, if_false]
+      rw [ih, need_cons_false]; simp; omega
+    | true =>
+      simp only [prepareLoop, if_true]
+      rw [ih, need_cons_true]; simp; omega
+
+theorem fromAffine_infinity (q : Aff Fq2) : (G2Prepared.fromAffine q).infinity = q.infinity := by
+  unfold G2Prepared.fromAffine
+  cases q.infinity <;> simp
+
+theorem fromAffine_length (q : Aff Fq2) (h : q.infinity = false) :
+    (G2Prepared.fromAffine q).coeffs.length = coeffCount := by
+  unfold G2Prepared.fromAffine coeffCount
+  simp only [h]
+  simp [prepareLoop_length]
+
+theorem fromAffine_length_infinity (q : Aff Fq2) (h : q.infinity = true) :
+    (G2Prepared.fromAffine q).coeffs = [] := by
+  unfold G2Prepared.fromAffine
+  simp [h]
+
+/-! ## Miller loops of pairs prepared by `G2Prepared::from_affine` never panic -/
+
+theorem single_fromAffine_ne_none (p : Aff Fq) (q : Aff Fq2) :
+    single (p, G2Prepared.fromAffine q) ≠ none := by
+  rw [Ne, single_eq_none_iff]
+  rintro ⟨-, h2, h3⟩
+  rw [fromAffine_infinity] at h2
+  rw [fromAffine_length q h2] at h3
+  exact lt_irrefl _ h3
+
+theorem millerLoop_zip_fromAffine_ne_none (ps : List (Aff Fq)) (qs : List (Aff Fq2)) :
+    millerLoop (List.zip ps (qs.map G2Prepared.fromAffine)) ≠ none := by
+  rw [Ne, millerLoop_eq_none_iff]
+  rintro ⟨⟨p, q'⟩, hm, -, h2, h3⟩
+  obtain ⟨q, -, rfl⟩ := List.mem_map.mp (List.of_mem_zip hm).2
+  rw [fromAffine_infinity] at h2
+  rw [fromAffine_length q h2] at h3
+  exact lt_irrefl _ h3
+
+/-! ## final exponentiation of products -/
+
+/-- the final exponentiation is multiplicative in `Option` -/
+theorem fe_optMul (a b : Option Fq12) :
+    (optMul a b).bind finalExponentiation =
+      optMul (a.bind finalExponentiation) (b.bind finalExponentiation) := by
+  cases a with
+  | none => simp only [optMul_none_left, Option.bind_none]
+  | some x =>
+    cases b with
+    | none => simp only [optMul_none_right, Option.bind_none]
+    | some y =>
+      simp only [optMul_some, Option.bind_some]
+      rw [FinalExp.fe_mul_all]
+      cases finalExponentiation x <;> cases finalExponentiation y <;> rfl
+
+theorem fe_optProd (l : List (Option Fq12)) :
+    (optProd l).bind finalExponentiation =
+      optProd (l.map fun a => a.bind finalExponentiation) := by
+  induction l with
+  | nil =>
+    rw [optProd_nil, Option.bind_some, List.map_nil, optProd_nil]
+    exact FinalExp.fe_one
+  | cons a l ih => rw [optProd_cons, fe_optMul, ih]; rfl
+
+theorem pairing_eq (p : Aff Fq) (q : Aff Fq2) :
+    pairing p q = (millerLoop [(p, G2Prepared.fromAffine q)]).bind finalExponentiation := rfl
+
+theorem pairingProduct_eq (p1 : Aff Fq) (q1 : Aff Fq2) (p2 : Aff Fq) (q2 : Aff Fq2) :
+    pairingProduct p1 q1 p2 q2 =
+      (millerLoop [(p1, G2Prepared.fromAffine q1), (p2, G2Prepared.fromAffine q2)]).bind
+        finalExponentiation := rfl
+
+theorem pairingMultiProduct_eq (ps : List (Aff Fq)) (qs : List (Aff Fq2))
+    (h : ¬ qs.length < ps.length) :
+    pairingMultiProduct ps qs =
+      (millerLoop (List.zip ps (qs.map G2Prepared.fromAffine))).bind finalExponentiation := by
+  unfold pairingMultiProduct
+  rw [if_neg h]; rfl
+
+/-- final exponentiation of a joint Miller loop = product of the final exponentiations of the
+    individual Miller loops, in `Option` -/
+theorem fe_millerLoop (ps : List (Aff Fq × G2Prepared)) :
+    (millerLoop ps).bind finalExponentiation =
+      optProd (ps.map fun pq => (millerLoop [pq]).bind finalExponentiation) := by
+  rw [millerLoop_eq_optProd, fe_optProd, List.map_map]; rfl
 
 end Miller
 end PP
